@@ -251,6 +251,36 @@ def _shard(shard, col: Collector):
                                       "a cost list was changed in place from %r to %r between two calls; compare(list, %r) = %r, definition %r" % (first, second, q, got, want),
                                       {"p": second, "q": q})
         col.sample({"kind": "argument immutability / independent comparator objects / numeric types and edge values / in-place changes"}, 1)
+    elif kind == "crossproblem":
+        # signed costs as the framework derives them for several problems living in one process (a maximising study next
+        # to a minimising one): the verdict on two evaluated designs of a problem follows THAT problem's criteria
+        from artap.algorithm import DummyAlgorithm
+        from artap.individual import Individual
+        from artap.operators import ParetoDominance
+        from .c_support import make_problem
+        crit_sets = [("maximize", "minimize"), ("minimize", "maximize"), ("minimize", "minimize"), ("maximize", "maximize"), ("maximize",), ("minimize", "minimize", "maximize")]
+        for first in crit_sets:
+            for second in crit_sets:
+                pa = make_problem(n_params=2, criteria=list(first), f=lambda v, k=len(first): [v[0], v[1], v[0] + v[1]][:k])
+                pb = make_problem(n_params=2, criteria=list(second), f=lambda v, k=len(second): [v[0], v[1], v[0] + v[1]][:k])
+                for problem, crits in ((pa, first), (pb, second), (pa, first)):
+                    pts = [[0.0, 0.0], [1.0, 0.0], [0.0, 1.0], [1.0, 1.0], [0.5, 0.5]]
+                    inds = [Individual(list(x)) for x in pts]
+                    DummyAlgorithm(problem).evaluate(inds)
+                    for a in inds:
+                        for b in inds:
+                            col.case()
+                            col.nontrivial(("cross", first, second, tuple(a.vector), tuple(b.vector)))
+                            sg = [-1.0 if c == "maximize" else 1.0 for c in crits]
+                            ra = tuple(s_ * c for s_, c in zip(sg, a.costs)) + (True,)
+                            rb = tuple(s_ * c for s_, c in zip(sg, b.costs)) + (True,)
+                            got = ParetoDominance().compare(a.costs_signed, b.costs_signed)
+                            if got != ref_dominance(ra, rb):
+                                col.violation("C01:evaluated-designs:verdict-ignores-the-problems-criteria", "crossproblem",
+                                              "problems with criteria %r and %r in one process; designs %r / %r of the one with %r: costs %r / %r, signed %r / %r, verdict %r, by definition %r" % (
+                                                  first, second, a.vector, b.vector, crits, a.costs, b.costs, a.costs_signed, b.costs_signed, got, ref_dominance(ra, rb)),
+                                              {"first": first, "second": second})
+        col.sample({"kind": "designs of several problems evaluated in one process"}, 1)
     elif kind == "varlen":
         # ONE comparator object sees cost vectors of changing length (one comparator is shared by every default Archive();
         # a user-held comparator serves a bi- and then a tri-objective problem): every verdict as if the object were fresh
@@ -419,6 +449,10 @@ def replay(sub, case):
         return check_pair(spec, t(case["p"]), t(case["q"]))
     if sub == "triple":
         return check_triple(spec, t(case["a"]), t(case["b"]), t(case["c"]))
+    if sub == "crossproblem":
+        c = Collector()
+        _shard(("crossproblem",), c)
+        return [(v["key"], v["message"]) for v in c.violations][:1]
     if sub == "huge":
         m = case["m"]
         p, q = [1.0] * m + [case["fp"]], [1.0] * m + [case["fq"]]
@@ -485,7 +519,7 @@ def run(tier, seed):
         if tier == "thorough":
             shards += [("pairs", spec, A5, 3), ("pairs", spec, B2, 5), ("pairs", spec, B2, 6)]
     shards += [("pairs", "pareto", NEAR, 1), ("pairs", "pareto", NEAR, 2)]
-    shards += [("misc",), ("options",)]
+    shards += [("misc",), ("options",), ("crossproblem",)]
     for m in SIZES:
         shards.append(("hugepairs", "pareto", m))
         shards.append(("hugepairs", ("eps", [0.3, 0.7, 0.9]), m))
